@@ -63,6 +63,12 @@ class OrderLeg(T.TravLeg):
         again = T.observe_trav(case)
         if again is None or again["answers"] != obs["answers"] or again.get("phase2", {}).get("answers") != obs.get("phase2", {}).get("answers"):
             return ["rebuilding the same graph in the same order gave different sequences"]
+        if case.get("caching"):
+            # "a function of the graph's link order alone": the same graph rebuilt with the neighbour memo out of use
+            plain = T.observe_trav({**case, "caching": False, "warm": False})
+            if plain is None or plain["answers"] != obs["answers"] or plain.get("phase2", {}).get("answers") != obs.get("phase2", {}).get("answers"):
+                return ["rebuilding the same graph in the same order, with neighbor caching off and nothing asked before, gave different sequences: "
+                        f"{[plain and plain['answers'], plain and plain.get('phase2', {}).get('answers')]} against {[obs['answers'], obs.get('phase2', {}).get('answers')]}"]
         return []
 
 
